@@ -21,7 +21,7 @@ def compileEN (tc : TCfg) (strict : Bool) : Nat → EN → CRes Unit
         let t ← compileTales tc 64 tok
         if t.hasUnsupported then .error (.crash "unsupported: expression outside the modelled subset") else pure ())
     | .interp tok _ _ _ required _ => lax (do
-        let ps ← compileInterp tc 64 tok required true
+        let ps ← compileInterp tc 64 tok required tc.decodeInterp
         if partsUnsupported ps then .error (.crash "unsupported: expression outside the modelled subset") else pure ())
     | .replace e _ | .translate _ e | .negate e => compileEN tc strict f e
     | .binop l _ r => do compileEN tc strict f l; compileEN tc strict f r
@@ -168,7 +168,7 @@ def render (r : RenderReq) : Outcome :=
     | some b => b
     | none => if xml then [] else r.htmlBooleans
   let bcfg : BCfg := { r.bcfg with booleanAttrs := booleans, escape := !r.textMode }
-  let tc : TCfg := { rx := bcfg.rx, q := bcfg.q, oracle := r.oracle }
+  let tc : TCfg := { rx := bcfg.rx, q := bcfg.q, oracle := r.oracle, decodeInterp := !r.textMode }
   match buildProgram bcfg r.textMode body with
   | .error (.template cls msg tok) =>
     let (l, c) := Tok.location body tok
